@@ -41,7 +41,7 @@ Dimensions added by the audit of the check (OneD.tla section 7b, MC_OneD.tla):
     (so a harmless rounding difference is no violation).  Forms are replayed for n <= 16 and
     n mod 32 in {0, 31};
   * more base rules for the *General classes (Simpson: odd n only; thorough also
-    ClenshawCurtis, MidPoint, GaussChebyshev, RectangleRuleSineEndPoints).
+    ClenshawCurtis and GaussChebyshev).
 
 Tolerances (calibrated on the pinned tree, see CALIBRATION below):
   exactness obligations (orthonormal scale)   |sum - expected| <= 1e-9
@@ -96,7 +96,7 @@ EPS = 2.220446049250313e-16
 WORKERS = 8
 # values drawn from the pools of spec/MC_OneD.tla per tier: (alpha, step, rho, n)
 SEED_COUNTS = {"quick": {"alpha": 1, "step": 1, "rho": 1, "n": 1},
-               "thorough": {"alpha": 3, "step": 2, "rho": 2, "n": 1}}
+               "thorough": {"alpha": 3, "step": 2, "rho": 1, "n": 1}}
 
 mpm = expr_eval.mp
 
